@@ -54,8 +54,13 @@ def judge(case, ctx):
 
 def draw(rng, nmax):
     n = rng.randint(1, nmax) if rng.random() < 0.6 else rng.randint(max(1, nmax - 4), nmax)
-    cls = rng.choice(["random", "random", "zeros", "repeats", "ones", "ties", "skewed", "big", "bigties", "bignear"])
-    if cls == "big":
+    cls = rng.choice(["random", "random", "zeros", "repeats", "ones", "ties", "skewed", "big", "bigties", "bignear", "pool", "pool", "pool"])
+    if cls == "pool":
+        # many items over 3-5 distinct values with a binding bound: arithmetic coincidences between different groupings (memo / pruning defects show here)
+        n = rng.randint(min(11, nmax), nmax)
+        pool = rng.sample(range(1, 16), rng.randint(3, 5))
+        vals = [rng.choice(pool) for _ in range(n)]
+    elif cls == "big":
         vals = [rng.randint(0, rng.choice([10 ** 9, 10 ** 12, 2 ** 48])) for _ in range(n)]
     elif cls == "bignear":
         vals = gen.part_values(rng, "bignear", n, 2)
@@ -76,7 +81,8 @@ def draw(rng, nmax):
     else:
         vals = [rng.randint(1, 5) for _ in range(n)]
         vals[rng.randrange(n)] = rng.randint(20, 200)        # one huge item: the cardinality bound binds
-    return {"kind": "partition", "alg": "cbldm", "k": 2, "values": vals, "cls": cls, "cbldm_d": rng.choice([None, 1, 1, 2, 3, n, max(1, n - 1), n + 1, 100]),
+    d = rng.choice([None, 1, 1, 2, 3, n, max(1, n - 1), n + 1, 100]) if cls != "pool" else rng.choice([1, 1, 2, 3])
+    return {"kind": "partition", "alg": "cbldm", "k": 2, "values": vals, "cls": cls, "cbldm_d": d,
             "pres": rng.choice(["list", "list", "array", "dict_str", "names_int"]), "pres_seed": rng.randrange(1 << 30)}
 
 
